@@ -33,7 +33,7 @@ void _ZNSaIcED1Ev(void *this) { (void)this; }
 #define STR_FROM_CSTR_HOOK(str, cstr)
 #endif
 /* ---------------- std::string ---------------- */
-void _ZNSt7__cxx1112basic_stringIcSt11char_traitsIcESaIcEEC1Ev(struct std_string *this) { SZ(this) = 0; }
+void _ZNSt7__cxx1112basic_stringIcSt11char_traitsIcESaIcEEC1Ev(struct std_string *this) { SZ(this) = 0; CW(this, 0) = 0; /* content identity of the empty string (strid.h) */ }
 void _ZNSt7__cxx1112basic_stringIcSt11char_traitsIcESaIcEED1Ev(struct std_string *this) { LIVE(this, 32, "std::string::~string"); }
 /* string(const char*, const allocator&) : any length */
 void _ZNSt7__cxx1112basic_stringIcSt11char_traitsIcESaIcEEC1EPKcRKS3_(struct std_string *this, const char *s, const void *a)
